@@ -538,7 +538,7 @@ def main(argv):
             'rule': cfg.get('rule', ''),
             'samples': samples if samples else [{'note': 'no correspondence cases were run'}],
             'unsupported_by_model': n_unsup, 'unsupported_reasons': unsup_reasons,
-            'input_distribution': stats.get('counters', {}),
+            'input_distribution': stats,
             'correspondence': cfg.get('correspondence', ''),
             'known_findings_hit': [f.get('id') for f, _ in known_hits][:20],
             'problems': [p['what'] for p in problems],
